@@ -1,7 +1,7 @@
 (* Props/C01.v — property C01: derivation operators return exactly the prime sets.
    Only theorem statements, each closed by [exact] of a lemma from Lemmas/, with
    Print Assumptions beneath.  [b] ranges over the three back-end models. *)
-From FCA Require Import Base.ListSet Model.BinTable Model.FormalContext Spec.Galois Lemmas.C01.
+From FCA Require Import Base.ListSet Model.BinTable Model.FormalContext Spec.Galois Spec.Closure Lemmas.C01 Lemmas.C01Galois.
 
 Theorem C01_extension_i_correct : forall b t B base,
   wf t -> in_range (width t) B -> opt_in_range (height t) base ->
@@ -86,6 +86,31 @@ Theorem C01_intention_named_keyerr : forall b t onames anames known x rest mono,
   intention_named b t onames anames (map (oname onames) known ++ x :: rest) mono = ErrKey x.
 Proof. exact intention_named_keyerr. Qed.
 Print Assumptions C01_intention_named_keyerr.
+
+(* Corollaries: on every back-end model the two operators form a Galois connection and the
+   closure of an object set is a formal concept; the answer does not depend on the back-end. *)
+Theorem C01_galois_extensive : forall b t A,
+  wf t -> in_range (height t) A -> incl A (extension_i b t (intention_i b t A None) None).
+Proof. exact model_galois_extensive. Qed.
+Print Assumptions C01_galois_extensive.
+
+Theorem C01_triple_prime : forall b t B,
+  wf t -> in_range (width t) B ->
+  extension_i b t (intention_i b t (extension_i b t B None) None) None = extension_i b t B None.
+Proof. exact model_triple_prime. Qed.
+Print Assumptions C01_triple_prime.
+
+Theorem C01_closure_is_concept : forall b t A,
+  wf t -> in_range (height t) A ->
+  is_concept t (extension_i b t (intention_i b t A None) None) (intention_i b t A None).
+Proof. exact model_closure_is_concept. Qed.
+Print Assumptions C01_closure_is_concept.
+
+Theorem C01_backend_free : forall b1 b2 t B base,
+  wf t -> in_range (width t) B -> opt_in_range (height t) base ->
+  extension_i b1 t B base = extension_i b2 t B base.
+Proof. exact model_backend_free. Qed.
+Print Assumptions C01_backend_free.
 
 (* Non-vacuity: a 3x3 table with a duplicate row, an empty column and an unsorted base meets
    every hypothesis, and the operators compute non-trivial sets on it. *)
